@@ -6,8 +6,7 @@ UNITS = ("leader", "volume", "image10s", "image11s")
 
 
 def run(ses):
-    for unit in UNITS:
-        records.check_unit(ses, unit, ["deps", "blank", "wf"])
+    records.check_units(ses, UNITS, ["deps", "blank", "wf"])
     ses.trust(*TRUST)
     ses.assume("spare / blank / reserved areas hold content of their declared character class (ASCII text, numeric text "
                "for numeric spares): decoding them does not raise",
